@@ -7,10 +7,10 @@ import random
 import vf
 
 MC_EXPECT = [  # design variants whose violation of the law TLC must find (the theorem has teeth)
-    ("MC_Compress_x_code.cfg", "the wrappers as found in the repository"),
+    ("MC_Compress_x_code.cfg", "the wrappers as they were before the three fix: commits"),
     ("MC_Compress_x_codeBrotli.cfg", "brotliDecompressor.Reset relying on brotli.Reader.Reset (leftover input)"),
     ("MC_Compress_x_codeIdentity.cfg", "noOpCompressor adopting the sink's Close"),
-    ("MC_Compress_x_first.cfg", "callers that Close/Read after a failed first Reset (zero gzip.Reader panics)"),
+    ("MC_Compress_x_codeGzip.cfg", "the bare zero gzip.Reader (Close after a failed first Reset panics)"),
     ("MC_Compress_x_zstdKeepClosed.cfg", "zstd wrapper keeping a closed decoder"),
     ("MC_Compress_x_zstdNoLazyNew.cfg", "zstd wrapper not recreating the decoder"),
     ("MC_Compress_x_libResetLeaks.cfg", "a reader whose Reset keeps state"),
@@ -109,7 +109,7 @@ def run(ctx):
     if ctx.replay:
         return run_replay(ctx)
 
-    # 1. design: the wrappers as repaired meet the law for histories of any length under every usage grammar
+    # 1. design: the wrappers meet the law for histories of any length under every usage grammar
     mc = ctx.tlc("Compress", "MC_Compress.cfg", timeout=600)
     ctx.notes["mc_design"] = dict(distinct=mc.distinct, generated=mc.generated, cfg="MC_Compress.cfg",
                                   theorem="Conforms, RefinesBinding, WrapperShape, Returns, SinkStaysOpen, GrammarWithinDiscipline")
@@ -158,7 +158,7 @@ def run(ctx):
     replay_instances(ctx, binp, sw, "allpos", variants=0, allpos=64 if q else 100000)
     ctx.notes["all_positions"] = dict(histories=len(sw), rule="every cut position; %s flipped bits of a 43-byte payload's stream" % ("64 seeded" if q else "all"))
 
-    # crashes (the last clause of the statement): probes at the edge of the usage discipline
+    # crashes (the last clause of the statement): fixed probes
     run_hazard(ctx, binp)
 
     # 4. code -> spec: long seeded histories of real instances, accepted line by line by Trace_Compress
@@ -234,7 +234,7 @@ def run(ctx):
 
     ctx.cov["exhaustive"] = False
     ctx.cov["rule"] = (
-        "TLC enumerates every call history of one pooled instance within the usage discipline - free grammar up to %s calls "
+        "TLC enumerates every call history of one pooled instance that starts with Reset - free grammar up to %s calls "
         "(decompressor: Reset on 9 stream classes / Read1 / ReadAll / Close) and %s calls (compressor: Reset on 4 sink kinds / Write of 3 "
         "payload tokens / Close), connect's pool protocol for %s cycles, the tracer's and the raw encoder's protocols, plus simulated "
         "histories of 24 calls - each with the obligations DReq/CReq computed from the calls alone; every history is replayed on real "
@@ -246,8 +246,8 @@ def run(ctx):
             "4" if q else "5", "5" if q else "6", "3" if q else "4"))
     ctx.assumptions += [
         "stock codecs of the same third-party libraries (used without the repository's wrappers) identify wire formats",
-        "usage discipline of the bulk histories: first call is Reset; after a Reset that reported an error the instance is only Reset again "
-        "(what connect's pools and the tracer do); Close/Read right after a failed first Reset is probed separately for crashes",
+        "usage discipline: the first call on an instance is Reset (before it the wrappers hold nil pointers); nothing else is assumed "
+        "about call order - Read and Close right after a Reset that reported an error are part of the histories",
         "compressed bytes are not modelled: Z(z,p) is an uninterpreted token, the harness supplies and compares bytes",
         "e2e sequences run with GOMAXPROCS(1) so that sync.Pool hands the recycled instance to the next request",
         "corrupted zstd streams whose frame header announces more than 32 MiB are re-drawn in the bulk replay: the klauspost decoder "
@@ -272,11 +272,7 @@ def run_hazard(ctx, binp):
         if not all(len(o) > i and o[i]["ret"] == "panic" for o in runs[1:]):
             ctx.notes["unreproduced"] = ctx.notes.get("unreproduced", 0) + 1
             continue
-        cause = ""
-        if r["then"] == "Close" and r.get("reset_garbage") == "err":
-            cause = "close-after-failed-first-reset"
-        elif r.get("overrun"):
-            cause = "brotli-bytewise-source-internal-buffer-overrun"
+        cause = "brotli-bytewise-source-internal-buffer-overrun" if r.get("overrun") else ""
         key = dict(component="instance", side="D", enc=r["enc"], op=r["then"], obs_ret="panic", cause=cause)
         ctx.candidate(key, "%s decompressor from GetDecompressor panics: %s -> %s" % (
             r["enc"], "Reset(garbage) reported %s, then %s" % (r.get("reset_garbage"), r["then"]) if "reset_garbage" in r
@@ -287,25 +283,10 @@ def run_hazard(ctx, binp):
 def report_recorded(ctx, r, at):
     ops, obs = r["ops"], r["obs"]
     cause = ""
-    if r["side"] == "C":
-        sink = None
-        closed_pipe = False
-        for o in ops[: at - 1]:
-            if o["o"] == "Reset":
-                sink = o["k"]
-            if o["o"] == "Close" and sink == "pipe":
-                closed_pipe = True
-        if closed_pipe and "closed pipe" in obs[at - 1].get("err", ""):
-            cause = "sink-closed-by-compressor-Close"
-    elif r["enc"] == "br" and at and obs[at - 1]["ret"] == "panic" and "index out of range [8] with length 8" in obs[at - 1].get("err", "") \
+    if r["enc"] == "br" and r["side"] == "D" and at and obs[at - 1]["ret"] == "panic" \
+            and "index out of range [8] with length 8" in obs[at - 1].get("err", "") \
             and "brotli.decoderDecompressStream" in obs[at - 1].get("err", ""):
         cause = "brotli-bytewise-source-internal-buffer-overrun"
-    elif r["enc"] == "br":
-        for o, b in reversed(list(zip(ops[:at], obs[:at]))):
-            if o["o"] == "Reset":
-                if b.get("left", 0) > 0:
-                    cause = "brotli-reset-keeps-buffered-input"
-                break
     key = dict(component="instance-recorded", side=r["side"], enc=r["enc"], op=ops[at - 1]["o"] if at else None,
                obs_ret=obs[at - 1]["ret"] if at else None, cause=cause)
     ctx.candidate(key, "recorded %s %s history rejected by Trace_Compress at call #%d: [%s] observed %s" % (
@@ -352,7 +333,7 @@ def run_seq(ctx, xc, seqs, force=None):
         if r.get("repro", 0) < 3:
             ctx.notes["unreproduced"] = ctx.notes.get("unreproduced", 0) + 1
             continue
-        key = dict(component="referenceserver-pool", side="D", enc=r["enc"], msg=r["msg"]["k"], status=r["status"], cause=r.get("cause", ""))
+        key = dict(component="referenceserver-pool", side="D", enc=r["enc"], msg=r["msg"]["k"], status=r["status"], cause="")
         ctx.candidate(key, "reference server, Content-Encoding %s, message sequence %s: message #%d (%s) must round-trip but: %s (earlier on this "
                       "connection: %s, statuses %s)" % (r["enc"], json.dumps([m["k"] + ":" + m["p"] for m in r["seq"]]), r["at"] + 1,
                                                          r["msg"]["k"], r["note"], r.get("earlier"), r.get("statuses")),
@@ -373,7 +354,7 @@ def run_raw(ctx, xc, raws):
         if r.get("repro", 0) < 3:
             ctx.notes["unreproduced"] = ctx.notes.get("unreproduced", 0) + 1
             continue
-        key = dict(component="internal.WriteRawStreamContents", side="C", enc=r["enc"], what=r["what"], cause=r.get("cause", ""))
+        key = dict(component="internal.WriteRawStreamContents", side="C", enc=r["enc"], what=r["what"], cause="")
         ctx.candidate(key, "WriteRawStreamContents onto an io.PipeWriter (as rawRequestSender does), %d %s items with explicit length %s: %s: %s" % (
             len(r["items"]), r["enc"], r["items"], r["what"], r["note"]), dict(component="raw", enc=r["enc"], items=dict(items=r["items"])))
     ctx.cov["evaluations"] += summ["evaluations"]
